@@ -218,6 +218,17 @@ func scenarioC14(r *Run) {
 			g.nextTEID++
 			nf := &FARSpec{ID: id, Action: ActFORW, DstIface: IfAccess, HasFwd: true, HasOHC: true, TEID: g.nextTEID, PeerIP: g.gnbs[r.Ch.Choose(len(g.gnbs), "gnb")]}
 			nf.EndMarker = r.Ch.Choose(3, "sndem") != 1
+			if old != nil && old.HasOHC && r.Ch.Choose(6, "same-teid-at-the-target") == 1 {
+				// the target gNB happens to choose the TEID value the source gNB used (each
+				// end allocates its own): another tunnel all the same
+				for _, cand := range g.gnbs {
+					if !cand.Equal(old.PeerIP) {
+						nf.PeerIP, nf.TEID = cand, old.TEID
+						r.Probe("hand-over-to-a-gnb-that-chose-the-same-teid")
+						break
+					}
+				}
+			}
 			if r.Ch.Choose(6, "tobuf") == 1 {
 				nf = &FARSpec{ID: id, Action: ActBUFF | ActNOCP, DstIface: IfAccess, HasFwd: true, EndMarker: nf.EndMarker}
 			}
